@@ -450,6 +450,8 @@ def C05():
     jobs.append(MirJob("c05_mir_panic_sites", "connection-setup read path (x224 confirm, GCC response, attach/join confirms, connect response, licence, sec::connect): every reachable unwrap/expect/index/panic call is on a justified allow-list",
                        mirjobs.panic_sites(mirjobs.SETUP_TARGETS, {r"^read_conference_create_response$": mirjobs.gcc_native_noblocks({}), r"^client_connect$|^parse_payload$": mirjobs.LICENSE_NATIVE,
                                                                    r"read_connection_confirm$": mirjobs.X224_CONFIRM_NATIVE})))
+    jobs.append(MirJob("c05_mir_per_panic_sites", "PER readers: no reachable unwrap/expect/slice-index/panic call (their per-byte reads and comparisons are bounds-checked MIR asserts, decided by the Kani harnesses and c05_mir_per_integer16)",
+                       mirjobs.panic_sites(mirjobs.PER_TARGETS, {r"^read_": mirjobs.PER_NATIVE})))
     jobs.append(MirJob("c05_mir_setup_arith", "x224 read_connection_confirm, licence client_connect / parse_payload, sec::connect, attach/join confirms: no arithmetic, shift, division or array-index check of their own can fail on wire values",
                        mirjobs.multi(mirjobs.fn_asserts(r"^x224::<impl at src/core/x224\.rs[^>]*>::read_connection_confirm$", "connection confirm", loop_bound=0, native=lambda m: mirjobs.X224_CONFIRM_NATIVE),
                                      mirjobs.fn_asserts(r"^client_connect$", "licence", loop_bound=0), mirjobs.fn_asserts(r"^parse_payload$", "licence", loop_bound=0),
